@@ -617,7 +617,12 @@ Inductive op :=
 | Remove (g x : Z) | Pop (g i : Z) | Clear (g : Z) | SetItem (g i x : Z) | DelItem (g i : Z)
 | DeleteLayer (x : Z) | MoveToGroup (x g : Z) | MoveUp (x off : Z) | MoveDown (x off : Z)
 | SetVisible (x : Z) (b : bool) | SetLeft (x v : Z) | SetTop (x v : Z) | SetClip (x : Z) (b : bool)
-| ObsBbox (x : Z) | ObsSize (x : Z) | ObsRepr (x : Z) | ObsDesc (g : Z) | ObsFind (g x : Z) | ObsVisible (x : Z).
+| ObsBbox (x : Z) | ObsSize (x : Z) | ObsRepr (x : Z) | ObsDesc (g : Z) | ObsFind (g x : Z) | ObsVisible (x : Z)
+(* exporting / printing reads: k = 0 topil(), 1 numpy(), 2 composite(), 3 save(scratch buffer), 4 mask /
+   has_effects() / effects / has_mask() / print.  Their answers (pixels, bytes) are not modelled; as far as
+   the stored fields go they may fill bbox caches and nothing else (they run the compositor, which reads
+   bbox): the model leaves the state alone and states containing them are compared without caches. *)
+| ObsExport (x k : Z).
 
 Definition needs_container (o : op) : option Z :=
   match o with
@@ -666,6 +671,7 @@ Definition step (s : state) (o : op) : state * out :=
                     | None => (s, Fail E_RECURSION)
                     | Some b => (s, Done [b2z b])
                     end
+  | ObsExport _ _ => (s, Done [])
   end.
 
 Definition run (s : state) (h : list op) : state := fold_left (fun st o => fst (step st o)) h s.
@@ -691,4 +697,20 @@ Fixpoint trace (s : state) (h : list op) : list Z :=
   match h with
   | [] => []
   | o :: r => let '(s1, a) := step s o in step_digest s1 a :: trace s1 r
+  end.
+
+(* the same without the bbox caches (histories that contain exporting reads) *)
+Definition print_obj_nc s (i : Z) : list Z :=
+  let o := objs s i in
+  [okind o; optz (oparent o); optz (opsd o); b2z (ovis o)] ++ box_list (orect o)
+  ++ [b2z (oclipf o); b2z (odirty o); zlen (oclips o)] ++ oclips o
+  ++ zlen (kid_ids s i) :: kid_ids s i.
+Definition print_state_nc s : list Z :=
+  if corrupt s then [-1] else next s :: flat_map (print_obj_nc s) (all_ids s).
+Definition step_digest_nc (s : state) (o : out) : Z :=
+  to_Z (h63_list (h63_list 0%uint63 (out_canon o)) (print_state_nc s)).
+Fixpoint trace_nc (s : state) (h : list op) : list Z :=
+  match h with
+  | [] => []
+  | o :: r => let '(s1, a) := step s o in step_digest_nc s1 a :: trace_nc s1 r
   end.
